@@ -13,9 +13,14 @@ use quick_xml::name::QName;
 use quick_xml::reader::{NsReader, Reader};
 use serde_json::{json, Value};
 
-const TOKENS: [&[u8]; 11] = [
+const TOKENS: [&[u8]; 18] = [
     b"<a>", b"</a>", b"</a >", b"<a/>", b"<b>", b"</b>", b"<b/>", b"t", b" ", b"<!--</a>-->", b"<![CDATA[</a>]]>",
+    // opaque content for the namespace layer only (index >= MAIN_TOKENS): declarations a resolver would reject or act on
+    b"<c xmlns:xml='urn:x'/>", b"<c xmlns:xmlns='u'>t</c>", b"<c xmlns:p='http://www.w3.org/XML/1998/namespace'/>", b"<c xmlns:p='http://www.w3.org/2000/xmlns/'/>",
+    b"<c xmlns='' xmlns:q=''/>", b"<p:c q:x='1'/>", b"<c xmlns:xml='http://www.w3.org/XML/1998/namespace' xml:lang='en'/>",
 ];
+/// the tokens the document enumeration ranges over
+const MAIN_TOKENS: u64 = 11;
 
 #[derive(Clone, Copy, PartialEq, Eq, Debug)]
 enum TK {
@@ -353,7 +358,7 @@ pub fn run(ctx: &Ctx) {
     let t = ctx.tier;
     let full = cfg!(feature = "full");
     let max_tokens: u32 = if full { t.pick(6, 7) } else { t.pick(4, 5) };
-    let k = TOKENS.len() as u64;
+    let k = MAIN_TOKENS;
     let seed = ctx.seed;
     let pend = t == Tier::Thorough;
     ctx.layer(
@@ -479,7 +484,48 @@ pub fn run(ctx: &Ctx) {
     if full {
         stretch_layer(ctx);
         history_layer(ctx);
+        ns_content_layer(ctx);
     }
+}
+
+/// The NsReader's skipping methods skip: what the skipped content declares (reserved prefixes, reserved
+/// namespace names, un-declarations, undeclared prefixes) is not interpreted. <a> X Y </a> <b/> with X, Y from
+/// the seven opaque namespace tokens (or nothing), skipped from the first start tag by all NsReader variants.
+fn ns_content_layer(ctx: &Ctx) {
+    let extra: Vec<u8> = (MAIN_TOKENS as u8..TOKENS.len() as u8).collect();
+    let n = extra.len() as u64 + 1;
+    ctx.layer("ns_reader.skipped_content_is_not_interpreted", 3, n * n, json!({"content_tokens": extra.iter().map(|&t| lossy(TOKENS[t as usize])).collect::<Vec<_>>(), "shape": "<a> X Y </a> <b/>", "operations": "NsReader read_to_end, read_text, read_to_end_into (1, whole), read_to_end_into_async (1)"}), |i, acc| {
+        let mut toks: Vec<u8> = vec![0];
+        for x in [i / n, i % n] {
+            if x > 0 {
+                toks.push(extra[(x - 1) as usize]);
+            }
+        }
+        toks.extend([1, 6]);
+        let doc = Doc::new(&toks);
+        let input = &doc.bytes[..];
+        for cfg in [CHECK_END_NAMES | TRIM_NAMES, CHECK_END_NAMES | TRIM_NAMES | EXPAND_EMPTY | TRIM_START | TRIM_END] {
+            let mut uninterrupted = Vec::new();
+            run_slice(input, cfg, 0, &mut uninterrupted);
+            let Some(exp) = expect_for(&doc, 0, input.len(), cfg) else { continue };
+            for op in [Op::ReadToEnd, Op::ReadText, Op::Into(1), Op::Into(0), Op::Async(1, None)] {
+                acc.evaluations += 1;
+                acc.transitions += 1;
+                match check_ns(&doc, input, cfg, 0, op, &exp, &uninterrupted, true) {
+                    Ok(true) => {
+                        acc.traces += 1;
+                        acc.nt_count += 1;
+                    }
+                    Ok(false) => acc.count("start_not_reached", 1),
+                    Err(what) => acc.violation(
+                        (3, i),
+                        format!("document {:?} cfg [{}], NsReader {:?} from the first start tag: {}", lossy(input), cfg_show(cfg), op, what),
+                        json!({"tokens": toks, "len": input.len(), "cfg": cfg, "start_token": 0, "op": format!("{:?}", op), "ns": true}),
+                    ),
+                }
+            }
+        }
+    });
 }
 
 /// Size thresholds: token lists with repeated parts. Returns the tokens and the start tokens to skip from.
@@ -740,7 +786,7 @@ fn run_history_on(input: &[u8], cfg0: u8, ops: &[HOp], kind: u8) -> Result<Vec<H
 
 fn history_layer(ctx: &Ctx) {
     let t = ctx.tier;
-    let k = TOKENS.len() as u64;
+    let k = MAIN_TOKENS;
     let nt = t.pick(4, 5);
     let nh = t.pick(4, 6);
     let ko = HOPS.len() as u64;
